@@ -64,12 +64,28 @@ IMPL = {
     "txin_deser": _txin_deser,
     "txout_deser": _txout_deser,
     "tx_deser": lambda b: _bits().tx.tx_deser(b, include_raw=True),
+    # the command line entry point (`bits tx`), run in-process through harness/cli.py
+    "cli_tx_build": lambda t, style: txgen.cli_build(t, style),
+    "cli_tx_decode": lambda b, fmt, style: txgen.cli_decode(b, fmt, style),
 }
+
+
+def model_call(c):
+    """cli_* ops are compared with the EXISTING model ops (the extracted Coq model is the expected value)"""
+    if c["op"] == "cli_tx_build":
+        return "c05_tx_ser", [c["args"][0]]
+    if c["op"] == "cli_tx_decode":
+        return "c05_tx_deser", [c["args"][0]]
+    return "c05_" + c["op"], c["args"]
 
 
 def canon(c, v):
     if c["op"] == "tx_deser":
         return txgen.canon_tx_deser(v)
+    if c["op"] == "cli_tx_decode" and len(v) == 2 and len(v[0]) == 4:
+        # model value ((txid, wtxid, raw, tx), leftover) -> what the command prints: (txid, wtxid, tx);
+        # "raw" is not printed and the leftover is only logged as a warning
+        return [v[0][0], v[0][1], v[0][3]]
     return v
 
 
@@ -246,9 +262,73 @@ def _tx_cases(rng, T):
     return out
 
 
+def _final(t):
+    return (t[0], [(i[0], i[1], i[2], txgen.FINAL_SEQ) for i in t[1]], t[2], t[3], t[4])
+
+
+def _cli_cases(rng, T):
+    """`bits tx` must build the bytes of tx()/tx_ser and print the fields of tx_deser"""
+    out = []
+    G = txgen.gen_tx
+    build = [("legacy-1-1", G(rng, 1, 1)), ("legacy-2-2", G(rng, 2, 2)), ("legacy-3-0", G(rng, 3, 0)),
+             ("segwit-2-1", G(rng, 2, 1, segwit=True)),
+             ("segwit-mixed-empty", G(rng, 3, 2, segwit=True, stack_sizes=(0, 2))),
+             ("segwit-all-empty", G(rng, 2, 1, segwit=True, stack_sizes=(0,))),
+             ("segwit-item-253", G(rng, 1, 1, segwit=True, stack_sizes=(2,), item_lens=[253, 0])),
+             ("nout-253", G(rng, 1, 253, out_lens=[0, 1])), ("nin-253", G(rng, 253, 1, in_lens=[0])),
+             ("scriptsig-252", G(rng, 1, 1, in_lens=[252])), ("scriptsig-253", G(rng, 1, 1, in_lens=[253])),
+             ("scriptpubkey-76", G(rng, 1, 2, out_lens=[76])), ("scriptpubkey-253", G(rng, 1, 1, out_lens=[253])),
+             ("no-inputs", (1, [], [txgen.gen_txout(rng, 3)], None, 0))]
+    for v in (0, 1, 2, (1 << 31), (1 << 32) - 1):
+        build.append(("version-%d" % v, G(rng, 1, 1, version=v, segwit=rng.random() < 0.5)))
+        build.append(("locktime-%d" % v, G(rng, 1, 1, locktime=v, segwit=rng.random() < 0.5)))
+    build.append(("defaults-v1-l0", G(rng, 2, 1, version=1, locktime=0)))
+    build.append(("value-max", (2, [txgen.gen_txin(rng, 1)], [((1 << 64) - 1, b"\x51")], None, 7)))
+    for _ in range(60 if T else 4):
+        build.append(("rand", G(rng, rng.randrange(1, 4), rng.randrange(0, 4), segwit=rng.random() < 0.5)))
+    for k, (cls, t) in enumerate(build):
+        for style in ((0, 1, 2, 3) if (T or cls.startswith(("defaults", "legacy-1"))) else (k % 4,)):
+            out.append(case("cli-build-" + cls, "cli_tx_build", _final(t), style))
+    # refusals: what tx()/txin()/txout() refuse the command must refuse, with empty stdout
+    ver, ins, outs, wits, lt = _final(G(rng, 2, 2, segwit=True))
+    bad = [("version-2^32", (1 << 32, ins, outs, wits, lt)), ("version-neg", (-1, ins, outs, wits, lt)),
+           ("locktime-2^32", (ver, ins, outs, wits, 1 << 32)), ("locktime-neg", (ver, ins, outs, wits, -1)),
+           ("vout-2^32", (ver, [(ins[0][0], 1 << 32) + ins[0][2:]] + ins[1:], outs, wits, lt)),
+           ("vout-neg", (ver, [(ins[0][0], -1) + ins[0][2:]] + ins[1:], outs, wits, lt)),
+           ("value-2^64", (ver, ins, [(1 << 64, outs[0][1])] + outs[1:], wits, lt)),
+           ("value-neg", (ver, ins, [(-1, outs[0][1])] + outs[1:], wits, lt))]
+    for cls, t in bad:
+        for style in (0, 1):
+            out.append(case("cli-build-refuse-" + cls, "cli_tx_build", t, style, strict=True))
+    # decode: every input format and flag spelling, with and without trailing bytes
+    dec_txs = [("legacy", G(rng, 2, 2)), ("segwit", G(rng, 2, 1, segwit=True)),
+               ("segwit-mixed-empty", G(rng, 3, 1, segwit=True, stack_sizes=(0, 1, 3))),
+               ("segwit-item-253", G(rng, 1, 1, segwit=True, stack_sizes=(1,), item_lens=[253])),
+               ("nout-253", G(rng, 1, 253, out_lens=[0, 2], segwit=rng.random() < 0.5)),
+               ("seq-nonfinal-segwit", G(rng, 2, 1, segwit=True)), ("scriptsig-253", G(rng, 1, 1, in_lens=[253]))]
+    for _ in range(40 if T else 2):
+        dec_txs.append(("rand", G(rng, rng.randrange(1, 4), rng.randrange(0, 3), segwit=rng.random() < 0.5)))
+    for k, (cls, t) in enumerate(dec_txs):
+        ser = txgen.ref_ser(t)
+        for j, fmt in enumerate(("hex", "raw", "bin")):
+            for style in (range(4) if T else ((k + j) % 4,)):
+                out.append(case("cli-decode-%s-%s" % (cls, fmt), "cli_tx_decode", ser, fmt, style, t=enc(t), nrest=0))
+        tr = rng.choice([b"\x00", ser[-4:], ser])
+        fmt = ("hex", "raw", "bin")[k % 3]
+        out.append(case("cli-decode-%s-trailing-%s" % (cls, fmt), "cli_tx_decode", ser + tr, fmt, k, t=enc(t), nrest=len(tr)))
+    out.append(case("cli-decode-genesis", "cli_tx_decode", txgen.GENESIS_COINBASE, "hex", 0))
+    # refusals of the parser: the command must print nothing
+    ser = txgen.ref_ser(G(rng, 1, 1, segwit=True))
+    for cls, buf in [("empty", b""), ("4-bytes", ser[:4]), ("flag-not-1", ser[:5] + b"\x02" + ser[6:]),
+                     ("cut-in-input", ser[:30]), ("cut-in-witness", ser[:-6])]:
+        for fmt in ("hex", "raw", "bin"):
+            out.append(case("cli-decode-malformed-" + cls, "cli_tx_decode", buf, fmt, 0))
+    return out
+
+
 def gen_cases(rng, tier):
     T = tier == "thorough"
-    return _cs_cases(rng, T) + _wit_cases(rng, T) + _tx_cases(rng, T)
+    return _cs_cases(rng, T) + _wit_cases(rng, T) + _tx_cases(rng, T) + _cli_cases(rng, T)
 
 
 # ---------------------------------------------------------------------------------------------------
@@ -256,11 +336,21 @@ def gen_cases(rng, tier):
 # ---------------------------------------------------------------------------------------------------
 def shrink(c):
     op = c["op"]
-    if op == "tx_ser":
+    if op in ("tx_ser", "cli_tx_build"):
         for t2 in txgen.shrink_tx(txgen.norm_tx(c["args"][0])):
             c2 = dict(c)
-            c2["args"] = [t2]
+            c2["args"] = [t2] + list(c["args"][1:])
             yield c2
+    elif op == "cli_tx_decode" and c.get("t"):
+        t = txgen.norm_tx(dec(c["t"]))
+        buf = c["args"][0]
+        tr = buf[len(buf) - c["nrest"]:] if c["nrest"] else b""
+        for t2 in txgen.shrink_tx(t):
+            if t2[1]:
+                c2 = dict(c)
+                c2["args"] = [txgen.ref_ser(t2) + tr] + list(c["args"][1:])
+                c2["t"] = enc(t2)
+                yield c2
     elif op == "tx_deser" and c.get("t"):
         t = txgen.norm_tx(dec(c["t"]))
         buf = c["args"][0]
@@ -406,6 +496,40 @@ def prop_oracle(c):
         got = _wit_deser(ser + rest)
         if (list(got[0]), got[1]) != (items, rest):
             return "decode_script(script(items, witness=True) + rest, witness=True) != (items, rest)"
+        return None
+    if op == "cli_tx_build":
+        t = txgen.norm_tx(a[0])
+        ok = (0 <= t[0] < 1 << 32 and 0 <= t[4] < 1 << 32 and all(0 <= i[1] < 1 << 32 for i in t[1])
+              and all(0 <= o[0] < 1 << 64 for o in t[2]))
+        try:
+            got = txgen.cli_build(t, a[1])
+        except Exception as e:
+            return None if not ok else "bits tx refuses a well-formed transaction: %s" % e
+        if not ok:
+            return "bits tx produced output %r for fields that tx() refuses" % (got,)
+        if got != txgen.ref_ser(t):
+            return "bits tx built %s, not the serialisation of the given fields (%s)" % (
+                got.hex()[:80] if isinstance(got, bytes) else got, txgen.ref_ser(t).hex()[:80])
+        return None
+    if op == "cli_tx_decode":
+        p = txgen.ref_parse(a[0])
+        if p is None:
+            try:
+                got = txgen.cli_decode(a[0], a[1], a[2])
+            except Exception:
+                return None
+            if isinstance(got, tuple) and got and isinstance(got[0], str):
+                return "bits tx --decode: %r" % (got,)
+            return None                     # liberal parser: the property does not speak about malformed input
+        t, used = p
+        t = txgen.norm_tx(t)
+        got = txgen.cli_decode(a[0], a[1], a[2])
+        want = (txgen.hash256(txgen.ref_ser(t, False)), txgen.hash256(txgen.ref_ser(t)), t)
+        if isinstance(got[0], str):
+            return "bits tx --decode: %r" % (got,)
+        if (got[0], got[1], txgen.norm_tx(got[2])) != want:
+            return "bits tx --decode (%s input) does not print the fields/ids of the transaction: %s" % (
+                a[1], _first_diff(txgen.norm_tx(got[2]), t) if txgen.norm_tx(got[2]) != t else "txid/wtxid differ")
         return None
     if op == "tx_ser":
         t = txgen.norm_tx(a[0])
